@@ -23,6 +23,8 @@ for d in sorted(glob.glob('/verif/seeded/*/')):
         summ = summ[:197] + '...'
     kind = 'revert' if name.startswith('R-') else 'agent'
     col = '; '.join(caught) or 'no trial yet'
+    if m.get('note') and 'not caught' in col:
+        col += ' - ' + m['note']
     if m.get('neutralised'):
         col = 'not a violation on the final tree: ' + m['neutralised'] + (' (' + col + ')' if caught else '')
     rows.append((name, kind, val if kind == 'agent' else 'revert of a fix', summ, col))
